@@ -173,7 +173,20 @@ pub struct Sim {
     pub only_start: Option<usize>,
     /// Vids that are roots of fold components (for the "dynamic hint inside fold" probe).
     pub fold_vids: BTreeSet<usize>,
+    pub ge_tag_props: BTreeSet<(usize, String)>,
+    pub recursion_coercions: BTreeSet<(usize, String, String)>,
     pub stop_logging: bool,
+}
+
+thread_local! {
+    /// Known-finding shims (see known_findings.json): when one is active the simulated adapter
+    /// avoids the one call site a recorded defect lives at, so that a violation that disappears
+    /// under the shim can be attributed to that finding and nothing else.
+    pub static SHIMS: RefCell<BTreeSet<String>> = const { RefCell::new(BTreeSet::new()) };
+}
+
+pub fn shim_active(name: &str) -> bool {
+    SHIMS.with(|s| s.borrow().contains(name))
 }
 
 impl Sim {
@@ -198,6 +211,8 @@ impl Sim {
             expected_entry: None,
             only_start: None,
             fold_vids: BTreeSet::new(),
+            ge_tag_props: BTreeSet::new(),
+            recursion_coercions: BTreeSet::new(),
             stop_logging: false,
         }
     }
@@ -742,6 +757,11 @@ impl Adapter<'static> for SimAdapter {
                 })
                 .unwrap_or_default();
             for p in dest_props {
+                if shim_active("ignore_dynamic_hint_for_ge_tag_filters")
+                    && self.sim.borrow().ge_tag_props.contains(&(dest_vid, p.clone()))
+                {
+                    continue;
+                }
                 if let Some(dynv) = dest.dynamically_required_property(&p) {
                     {
                         let mut s = self.sim.borrow_mut();
@@ -849,10 +869,16 @@ impl Adapter<'static> for SimAdapter {
         if let (Some(t), Some(c)) = (tidx, cidx) {
             let mut s = self.sim.borrow_mut();
             if !s.world.schema.is_subtype(c, t) {
+                let key = (vid, type_name.to_string(), coerce_to_type.to_string());
+                let class = if s.recursion_coercions.contains(&key) {
+                    "recursion-implicit-coercion-to-edge-origin-type-that-is-not-a-subtype-of-the-edge-type"
+                } else {
+                    "coercion-target-not-a-subtype"
+                };
                 s.violation(
                     "C21",
-                    "coercion-target-not-a-subtype",
-                    format!("call {call}: coerce `{type_name}` to `{coerce_to_type}`"),
+                    class,
+                    format!("call {call} (vid {vid}): coerce `{type_name}` to `{coerce_to_type}`"),
                 );
             }
         }
